@@ -254,6 +254,7 @@ func (d *Driver) Open() (reterr error) {
 	d.closeOnce = sync.Once{}
 
 	go d.read()
+	verifhook.Point("spawn.nc.read")
 
 	return nil
 }
